@@ -151,6 +151,7 @@ pub enum TableTypeEntry {
 pub enum Type {
     Name {
         ns: Option<String>,
+        ns_pos: usize,
         name: String,
         params: Option<Vec<Type>>,
     },
